@@ -1283,6 +1283,15 @@ class EventBus:
             # Cancel the monitor task on timeout too
             monitor_task.cancel()
 
+            current_task = asyncio.current_task()
+            if (handler_task is None or handler_task.done()) and not (current_task is not None and current_task.cancelling()):
+                # Nobody is cancelling us: the handler itself raised (or let through) a CancelledError, e.g. because it awaited
+                # something that had been cancelled. That is an ordinary handler error: record it and carry on with the other
+                # handlers and later events. Letting it travel on as a cancellation would silently kill this bus's run loop
+                event.event_result_update(handler=handler, eventbus=self, error=e)
+                logger.error(f'❌ {self} Event handler {get_handler_name(handler)}({event}) raised {type(e).__name__}({e})')
+                raise RuntimeError(f'Event handler {get_handler_name(handler)}#{handler_id[-4:]}({event}) raised CancelledError') from e
+
             # Create a RuntimeError for timeout
             # TODO: figure out why it breaks when we try to switch to InterruptedError instead of asyncio.CancelledError
             handler_interrupted_error = asyncio.CancelledError(
